@@ -62,6 +62,13 @@ MapVerdict(e) ==
          ELSE IF e.cp.raised /\ e.cp.exc \notin NumericFailure THEN <<"DecompRaised", -1>>
          ELSE <<"ok", -1>>
 
+(* A returned factor that is (numerically) the ZERO matrix -- a penalised mode shrunk away by its l1 / l2   *)
+(* prox -- makes the normal equations of every other mode singular (the Hadamard product of the Grams is  *)
+(* 0).  float64 then raises LinAlgError (NumericFailure, nothing returned); float32 solves the same      *)
+(* singular system silently into inf / NaN.  It is one and the same numerical break-down: a non-finite    *)
+(* factor next to a collapsed one carries no obligation (finite factors still do).                        *)
+CollapsedModel(e) == \E m \in 1..Len(e.factors) : e.factors[m].finite /\ e.factors[m].fro = 0
+
 RunVerdict(e) ==
     LET n == e.n
         items == e.items IN
@@ -81,7 +88,7 @@ RunVerdict(e) ==
                                                         /\ FeasibleT(A[m].kind, A[m].par, e.start[m + 1], TolOf(e.run.dtype))}
              lost == {m \in kept : ~(/\ MeasOK(A[m].kind, e.factors[m + 1])
                                      /\ FeasibleT(A[m].kind, A[m].par, e.factors[m + 1], TolOf(e.run.dtype)))} IN
-         IF nomeas # {} /\ ~UnderflowRegime(e.run) THEN <<"Finite", LeastOf(nomeas)>>
+         IF nomeas # {} /\ ~UnderflowRegime(e.run) /\ ~CollapsedModel(e) THEN <<"Finite", LeastOf(nomeas)>>
          ELSE IF bad # {} THEN <<ClauseOf(A[LeastOf(bad)].kind), LeastOf(bad)>>
          ELSE IF lost # {} THEN <<"SuppliedFeasibleLost", LeastOf(lost)>>
          ELSE <<"ok", -1>>
